@@ -24,6 +24,9 @@ COMMON = os.path.join(SPEC, "common")
 GOENV = {"GOFLAGS": "-mod=mod", "GOPROXY": "off", "GOSUMDB": "off", "GOTOOLCHAIN": "local"}
 
 
+SHARD_EVENTS = 150000
+
+
 class Fatal(Exception):
     pass
 
@@ -280,7 +283,9 @@ class Check:
         lines = open(trace_path).readlines()
         n_events = len(lines)
         if shards is None:
-            shards = max(1, min(self.cores, n_events // 20000 + 1))
+            # as many shards as cores, but no shard larger than SHARD_EVENTS events (TLC reads a shard's trace into memory as
+            # one TLA+ value): large traces are validated in waves of `cores` shards
+            shards = max(1, min(self.cores, n_events // 20000 + 1), -(-n_events // SHARD_EVENTS))
         # split at trace boundaries ("i":0 marks the first event of a trace)
         bounds = [k for k, x in enumerate(lines) if '"i":0,' in x or '"i":0}' in x]
         n_traces = len(bounds)
